@@ -37,6 +37,9 @@ def run(tier):
     small = [f for f in allf if len(f) <= NA]
     tiny = [f for f in allf if len(f) <= 4]
     instrcheck.sweep(res, [(c01.gen, allf, variants(), "trace", None),
+                           # a user signal whose name ends like the built-in ones
+                           (instrcheck._ren_c01, tiny, variants()[:3], "trace", None),
+                           (instrcheck._ren_c02, tiny, variants()[:3], "trace", None),
                            (c02.gen, allf, variants(), "trace", None),
                            (c03.gen, allf, variants(names=("c", None)), "trace", None),
                            (instrcheck.gen_act, small, variants()[1:], "trace", None),
